@@ -4,7 +4,8 @@ import re
 import logging
 
 from .util import (Source, print_dump, get_marked_atribute, split_pkg,
-                   get_marked_name, get_marked_import, get_all_usages, join_pkg)
+                   get_marked_name, get_marked_import, get_all_usages, join_pkg,
+                   marked)
 from .evaluator import EvalCtx
 from .nast import extract_scope
 
@@ -56,7 +57,8 @@ def assist(project, source, position, filename=None, debug=False):
         if name:
             names = name.flow.names_at(position)
 
-    return prefix, sorted(names)
+    # the name under the cursor carries the internal mark: never propose it
+    return prefix, sorted(n for n in names if not marked(n))
 
 
 def _loc(location, filename):
